@@ -195,7 +195,7 @@ fn forged_before(hist: &[Step], id: u8) -> bool {
         match s.act {
             Act::Send { id: i, .. } if i == id => forged = false,
             Act::Resp { id: i, auth, .. } if i == id => {
-                if matches!(auth, Auth::Sha1Flipped(_) | Auth::Sha256Flipped(_) | Auth::MixedSha1Good(_) | Auth::None | Auth::Sha1(2) | Auth::Sha1(0)) {
+                if matches!(auth, Auth::Sha1Flipped(_) | Auth::Sha256Flipped(_) | Auth::MixedSha1Good(_) | Auth::Sha1WireLenFp(_) | Auth::Sha256WireLenFp(_) | Auth::None | Auth::Sha1(2) | Auth::Sha1(0)) {
                     forged = true;
                 }
             }
